@@ -3,12 +3,15 @@ from props._common import *  # noqa
 ID = 'C12'
 LEVEL = 'proof'
 FUNCTIONS = [M + f for f in ('supports_namespaces', 'get_tag_ns', 'is_html_tag', 'match_namespace', 'match_tag')] + [N + 'get_uri', N + 'has_html_ns'] + HUB
-TRUSTED = [A_PY, A_BS4, A_SMT, 'attribute-namespace part (match_attribute_name) not yet under a discharged contract: bounded']
+TRUSTED = [A_PY, A_BS4, A_SMT, 'split_namespace (reads .namespace/.name of a NamespacedAttribute key) and normalize_value under assumed contracts', 'A-bs4: in a tree that is not XML a namespaced attribute key has a local name']
 ASSUMPTIONS = TRUSTED
 EXPLANATION = ('match_namespace is proved equal to the table of the property (ns|E, *|E, |E, bare E with/without a default namespace, '
                'unmapped prefix matches nothing) for every element and every prefix map; the hub proof shows the caller\'s map is the one in force '
-               'except inside pre-compiled HTML-only lists and is restored afterwards.')
+               'except inside pre-compiled HTML-only lists and is restored afterwards; match_attribute_name is proved equal to the attribute table ([ns|a] mapped namespace, '
+               '[*|a] any namespace or none, [a]/[|a] no namespace processing, unmapped prefix nothing; names exact in XML, ASCII case-insensitive otherwise).')
 LEVEL_TEXT = EXPLANATION
 TIMEOUT_MS = {'quick': 20000, 'thorough': 120000}
 MUSTFAIL_PER_FN = {'quick': 1, 'thorough': 6}
 BOUNDED = [hub_bounded('C12-namespaces', ['ns', 'svghtml', 'plain', 'svg5', 'basic'], ['ns'], nsnames=('none', 'svg', 'default-html', 'default-x'))]
+
+FUNCTIONS = FUNCTIONS + [q for q in ATTRS if q not in FUNCTIONS]
